@@ -88,6 +88,18 @@ def run(run, replay=None):
                         if st > 0 and st - 1 < len(lat) and any(x["speech"] == want_head and x["end"] + 1 - len(x["reading"]) == 0
                                                                for x in lat[st - 1] if x["kind"] == "word"):
                             via_head_affix = True
+                    # … or transitively: the head rule is the only context-dependent merge, so a word of this candidate that is in
+                    # this context's lattice but not in the normal one, and is not itself the head suffix/counter, was merged
+                    # downstream of such a head word (an ancillary word made mergeable by a word that was made mergeable by it)
+                    nlat = store["normal"]["lattice"] or []
+                    nkeys = {(x["end"], x["reading"], x["surface"], x["speech"]) for pos in nlat for x in pos if x["kind"] == "word"}
+                    head_here = any(x["speech"] == want_head and x["end"] + 1 - len(x["reading"]) == 0
+                                    for pos in lat for x in pos if x["kind"] == "word")
+                    for w in words:
+                        st = w["end"] + 1 - len(w["reading"])
+                        if head_here and (w["end"], w["reading"], w["surface"], w["speech"]) not in nkeys and \
+                           not (w["speech"] == want_head and st == 0):
+                            via_head_affix = True
                     key2 = {"kind": ctx + "-extra", "cause": "ancillary-after-head-affix-position"} if via_head_affix else \
                            {"kind": ctx + "-extra", "text": t}
                     fails.append((ctx + "-extra", key2, dict(c.describe(), context=ctx, extra_candidate=t,
